@@ -1,9 +1,11 @@
 // C08 harness: trees over a small name alphabet x 0..3 anchor-free regular expressions (generated as syntax trees
 // and printed in Go syntax) x the nine exclusion-aware operations, on the in-memory and the OS back ends.
 // Oracle (independent of the Coq model, patterns evaluated with Go's regexp directly):
-//   sound    — an entry with a path component matched IN FULL by a pattern is never reported/copied/archived/deleted;
-//   complete — an entry none of whose components CONTAINS a match is processed (root path without a match);
-//   invalid  — an uncompilable pattern gives the 'invalid' kind and leaves the file system as it was.
+//
+//	sound    — an entry with a path component matched IN FULL by a pattern is never reported/copied/archived/deleted;
+//	complete — an entry none of whose components CONTAINS a match is processed (root path without a match);
+//	invalid  — an uncompilable pattern gives the 'invalid' kind and leaves the file system as it was.
+//
 // Correspondence: every run is also emitted as a Coq case (model output must equal the observation), together with
 // matcher cases (Coq derivative matcher vs regexp) and IsPathExcludedFromPatterns cases.
 package main
@@ -139,7 +141,7 @@ func (r *Re) sepFree() bool {
 
 const alphabet = "abdx"
 
-func chr(c byte) *Re { return &Re{K: "chr", C: int(c)} }
+func chr(c byte) *Re   { return &Re{K: "chr", C: int(c)} }
 func cat(a, b *Re) *Re { return &Re{K: "cat", A: a, B: b} }
 func alt(a, b *Re) *Re { return &Re{K: "alt", A: a, B: b} }
 func star(a *Re) *Re   { return &Re{K: "star", A: a} }
@@ -317,18 +319,18 @@ func genTree(r *h.Run, depth int, budget *int) *Node {
 }
 
 func dir(name string, kids ...*Node) *Node { return &Node{Name: name, Dir: true, Kids: kids} }
-func file(name string) *Node              { return &Node{Name: name} }
+func file(name string) *Node               { return &Node{Name: name} }
 
 // ---------- scenarios ----------
 
 type Scenario struct {
-	Op         string `json:"op"` // walk ls lsrec listtree subdirs copy zip remove clean
-	Flag       bool   `json:"flag"` // lsrec: includeDirectories; copy: destination exists
-	Backend    string `json:"backend"`
-	RootName   string `json:"root_name"`
-	DestName   string `json:"dest_name"`
-	Tree       *Node  `json:"tree"`
-	Pats       []Pat  `json:"pats"`
+	Op       string `json:"op"`   // walk ls lsrec listtree subdirs copy zip remove clean
+	Flag     bool   `json:"flag"` // lsrec: includeDirectories; copy: destination exists
+	Backend  string `json:"backend"`
+	RootName string `json:"root_name"`
+	DestName string `json:"dest_name"`
+	Tree     *Node  `json:"tree"`
+	Pats     []Pat  `json:"pats"`
 }
 
 var ops = []struct {
@@ -938,13 +940,22 @@ func main() {
 		{"t", "o", deep, []Pat{good(&Re{K: "cls", Neg: true, Rs: [][2]int{{'a', 'a'}}})}},
 		{"t", "o", deep, []Pat{{Kind: "blank", Text: ""}, good(word("d"))}},
 		{"t", "o", deep, []Pat{{Kind: "blank", Text: " "}}},
-		{"ab", "o", deep, []Pat{good(word("ab"))}},          // the root's own path contains a match
-		{"t", "ab", deep, []Pat{good(word("ab"))}},          // the destination's path contains a match
-		{"t", "o", dir(""), []Pat{good(word("a"))}},         // empty directory
-		{"t", "o", file(""), []Pat{good(word("a"))}},        // the root is a file
-		{"a", "o", file(""), []Pat{good(word("a"))}},        // ... whose path is excluded
+		{"ab", "o", deep, []Pat{good(word("ab"))}},                                // the root's own path contains a match
+		{"t", "ab", deep, []Pat{good(word("ab"))}},                                // the destination's path contains a match
+		{"t", "o", dir(""), []Pat{good(word("a"))}},                               // empty directory
+		{"t", "o", file(""), []Pat{good(word("a"))}},                              // the root is a file
+		{"a", "o", file(""), []Pat{good(word("a"))}},                              // ... whose path is excluded
 		{"t", "o", dir("", dir("a"), dir("b", dir("a"))), []Pat{good(word("a"))}}, // empty excluded directories
 		{"t", "o", dir("", dir("d", dir("d", dir("d", file("a"), file("b"))))), []Pat{good(word("a"))}},
+		// the root's / the destination's own path contains a match (outside the property's premise: model and code must still agree)
+		{"xab", "o", deep, []Pat{good(word("ab"))}},
+		{"a", "o", deep, []Pat{good(alt(chr('a'), chr('d')))}},
+		{"ab", "o", dir(""), []Pat{good(word("ab"))}},
+		{"ab", "o", dir("", file("x"), dir("d", file("x"))), []Pat{good(word("ab"))}},
+		{"t", "xd", dir("", file("x"), dir("d", file("x"))), []Pat{good(chr('d'))}},
+		{"b", "a", dir("", file("x"), dir("d", file("x"))), []Pat{good(cat(chr('a'), cat(anyRe, chr('b'))))}}, // dest/base spans a.b
+		{"b", "a", dir("", file("x"), dir("d", file("x"))), []Pat{good(cat(chr('b'), cat(anyRe, chr('d'))))}}, // root/child spans b.d
+		{"t", "a", dir("", file("x"), dir("b", file("x"))), []Pat{good(cat(chr('a'), cat(anyRe, chr('b'))))}}, // dest/child spans a.b
 	}
 	for _, c := range corpus {
 		allOps(r, e, "mem", c.root, c.dest, c.tree, c.pats, true)
@@ -972,14 +983,25 @@ func main() {
 		tree := genTree(r, 0, &budget)
 		pats := genPats(r)
 		rootName, destName := "t", "o"
-		switch r.Rng.Intn(12) {
+		switch r.Rng.Intn(8) {
 		case 0:
 			rootName = genName(r)
+			if r.Rng.Intn(2) == 0 {
+				pats = append(pats, good(word(rootName[r.Rng.Intn(len(rootName)):])))
+			}
 		case 1:
 			destName = genName(r)
-			if destName == rootName {
-				destName = "o"
+			if r.Rng.Intn(2) == 0 {
+				pats = append(pats, good(word(destName[:1+r.Rng.Intn(len(destName))])))
 			}
+		case 2:
+			rootName, destName = genName(r), genName(r)
+		}
+		if destName == rootName {
+			destName = "o"
+		}
+		if len(pats) > 3 {
+			pats = pats[len(pats)-3:]
 		}
 		if r.Rng.Intn(14) == 0 {
 			pats = append(pats, Pat{Kind: "bad", Text: badTexts[r.Rng.Intn(len(badTexts))]})
